@@ -185,6 +185,28 @@ func (x *Exec) applyUses(fr *Frame, st *State, env *SpecEnv, at string) {
 	}
 }
 
+// contractMayRetain: can the callee store a reference it is handed?  Not if all it may modify are numbers (val(x)) and ghost
+// arrays (which hold integers), as the math/big contracts and the ghost account model declare.
+func contractMayRetain(con *Contract) bool {
+	if con.Pure {
+		return false
+	}
+	if !con.HasMod {
+		return true
+	}
+	for _, m := range con.Modifies {
+		ce, ok := m.Expr.(*ast.CallExpr)
+		if !ok {
+			return true
+		}
+		id, _ := ce.Fun.(*ast.Ident)
+		if id == nil || (id.Name != "val" && id.Name != "gh" && id.Name != "ghall") {
+			return true
+		}
+	}
+	return false
+}
+
 func topConjuncts(e ast.Expr) []ast.Expr {
 	switch v := e.(type) {
 	case *ast.ParenExpr:
@@ -487,6 +509,36 @@ func (x *Exec) applyContract(fr *Frame, st *State, in ssa.Instruction, con *Cont
 			}
 		}
 		res = x.freshResult(st, resultType(sig), "res."+sanitize(key))
+		// a pointer handed back by the callee is none of this activation's objects that never left it
+		if contractMayRetain(con) {
+			for _, a := range args {
+				st.markEscaping(flatten(a))
+			}
+		}
+		for i, c := range compsOf(resultType(sig)) {
+			if (c.K == KRef && c.Role == "") || c.Role == "arr" {
+				rt := flatten(res)
+				if i >= len(rt) {
+					break
+				}
+				for _, f := range st.freshList {
+					if st.escRefs[f] {
+						continue
+					}
+					handed := false // the callee may hand back what it was handed in this call
+					for _, a := range args {
+						for _, t := range flatten(a) {
+							if strings.Contains(t, f) {
+								handed = true
+							}
+						}
+					}
+					if !handed {
+						st.assume(sNot(sEq(rt[i], f)))
+					}
+				}
+			}
+		}
 		x.bindResults(names, sig, res)
 		env2 := &SpecEnv{x: x, fr: fr, st: st, old: snap, names: names, pkg: con.Pkg, depth: 1}
 		for _, en := range con.Ensures {
